@@ -342,6 +342,12 @@ fn analyse_globals(context: &mut GenerateContext) -> Result<(), GenerateError> {
         }
 
         let mut required_globals = Vec::new();
+        #[cfg(rssl_verif)]
+        rssl_text::verif::probe(
+            "msl::generator::function_usage",
+            global_usage.get_usage_for_function(id).len(),
+            rssl_text::verif::order_sig(global_usage.get_usage_for_function(id).iter()),
+        );
         for symbol in global_usage.get_usage_for_function(id) {
             if let ir::usage_analysis::UsageSymbol::GlobalVariable(gid) = symbol {
                 // Intrinsic globals do not need parameters
